@@ -2,6 +2,7 @@
 from __future__ import annotations
 
 import ast
+import re
 from typing import Any
 
 from sa.kern import eval_kernel
@@ -619,6 +620,7 @@ def _value_range(ctx: Ctx) -> None:
 
 def _parser(ctx: Ctx) -> None:
     _value_range(ctx)
+    _tables(ctx)
     repo = ctx.repo
     fq = repo.func(INST, "Instance.from_qaplib_stream")
     icls = repo.cls(INST, "Instance")
@@ -709,3 +711,87 @@ def _parser(ctx: Ctx) -> None:
 def _sh_poly(p: Any) -> str:
     from sa.symterm import Poly, show
     return show(p) if isinstance(p, Poly) else str(p)
+
+
+# ------------------------------------------------------------------ D9.5
+def _tables(ctx: Ctx) -> None:
+    """The declared data do not contradict each other: a lower bound from
+    the bounds table is not above the best-known objective value of the
+    same instance, and not above an objective value that a docstring
+    documents for a permutation of that instance (both would put a real
+    objective value below `lower_bound`)."""
+    import doctest
+    repo = ctx.repo
+    ctx.rule("D9.5", "declared lower bounds contradict neither the "
+             "best-known values nor the documented objective values")
+    mod = repo.module(INST)
+
+    def table(name: str) -> tuple[ast.AST | None, dict[str, Any]]:
+        for st in mod.tree.body:
+            tg = st.target if isinstance(st, ast.AnnAssign) else (
+                st.targets[0] if isinstance(st, ast.Assign) else None)
+            if isinstance(tg, ast.Name) and tg.id == name and isinstance(
+                    getattr(st, "value", None), ast.Dict):
+                out: dict[str, Any] = {}
+                for k, v in zip(st.value.keys, st.value.values):
+                    if isinstance(k, ast.Constant) and isinstance(
+                            k.value, str):
+                        try:
+                            out[k.value] = ast.literal_eval(v)
+                        except ValueError:
+                            out[k.value] = None
+                return st, out
+        return None, {}
+    bnode, bounds = table("_BOUNDS")
+    _knode, bks = table("_BKS")
+    problems: list[str] = []
+    n_cmp = 0
+    for nm, v in bks.items():
+        val = v[1] if isinstance(v, tuple) and len(v) == 2 else None
+        if nm in bounds and isinstance(val, int) and isinstance(
+                bounds[nm], int):
+            n_cmp += 1
+            if bounds[nm] > val:
+                problems.append(
+                    f"{nm}: declared lower bound {bounds[nm]} is above the "
+                    f"best-known objective value {val}")
+    # documented evaluations: Instance.from_resource("X") ... evaluate(...)
+    n_doc = 0
+    for m_ in repo.modules.values():
+        if not m_.name.startswith("moptipyapps.qap"):
+            continue
+        docs = [ast.get_docstring(m_.tree, clean=False) or ""]
+        for n_ in ast.walk(m_.tree):
+            if isinstance(n_, (ast.FunctionDef, ast.ClassDef)):
+                docs.append(ast.get_docstring(n_, clean=False) or "")
+        for d in docs:
+            if "from_resource" not in d:
+                continue
+            cur = None
+            try:
+                exs = doctest.DocTestParser().get_examples(d)
+            except ValueError:
+                continue
+            for ex in exs:
+                mm = re.search(r"from_resource\(\s*[\"']([\w]+)[\"']", ex.source)
+                if mm:
+                    cur = mm.group(1)
+                if ".evaluate(" in ex.source and cur is not None:
+                    w = ex.want.strip()
+                    if w.isdigit() and isinstance(bounds.get(cur), int):
+                        n_doc += 1
+                        if int(w) < bounds[cur]:
+                            problems.append(
+                                f"{cur}: {m_.name} documents the objective "
+                                f"value {w} of a permutation, below the "
+                                f"declared lower bound {bounds[cur]}")
+    ctx.count("bound_vs_best_known", n_cmp)
+    ctx.count("bound_vs_documented_value", n_doc)
+    ok = not problems and bool(bounds)
+    ctx.ob("D9.5", None, bnode, ok,
+           f"{len(bounds)} declared lower bounds: none is above the "
+           f"best-known value of its instance ({n_cmp} compared) or above a "
+           f"documented objective value ({n_doc} compared)" if ok else (
+               "; ".join(problems) if problems else
+               "the bounds table is not recognised"),
+           function="_BOUNDS", construct="declared bounds consistent")
